@@ -338,7 +338,7 @@ def owners_key(fn, key, exp, obs):
     if key in ("nfd", "nalloc"):
         # the descriptor / allocation count is C05's after destroy (and C04's after a failed start); in between it is
         # part of the state the call's own property predicts (e.g. a stream closed too early)
-        return STATE_OWNER.get(fn, {"C14"})
+        return STATE_OWNER.get(fn, {"C14"}) | ({"C05"} if key == "nalloc" else set())
     if key == "left":
         return {"C04", "C05"}
     if key == "rev":
@@ -359,6 +359,10 @@ def owners_key(fn, key, exp, obs):
         return {"C13"}
     if key in ("cexec", "forks"):
         return {"C04"}
+    if key == "fchild":
+        # what the forked child sees of start / pid / wait is the handle life cycle; which descriptors it is left
+        # with decides whether the parent ever sees end of stream (C02) and is the launch contract's "only the exit handle" (C11)
+        return {"C14", "C02", "C11"}
     return {"C14"}
 
 
@@ -460,7 +464,7 @@ def fam_life(tier, outdir):
     if tier == "thorough":
         consts.update({"MaxCalls": 6, "Depth": '"full"', "MaxTime": 2})
     cfg = os.path.join(outdir, "MC_Life.cfg")
-    write_cfg(cfg, "Spec", consts, ["TypeOK", "LifeChild", "Conservation"], props=["LifeOrder"], export_stride=2 if tier == "quick" else 1)
+    write_cfg(cfg, "Spec", consts, ["TypeOK", "LifeChild", "Conservation"], props=["LifeOrder"], export_stride=3 if tier == "quick" else 1)
     res = run_tlc_export("life", "MC_Life", cfg, outdir, tier, asan_stride=4 if tier == "quick" else 16)
     sc = dict(consts); sc.update({"MaxTime": 4, "MaxCalls": 14, "MaxOut": 8, "Depth": '"full"'})
     return sim_pass(res, "life", "MC_Life", sc, ["TypeOK", "LifeChild", "Conservation"], outdir, tier, 500 if tier == "quick" else 30000, 80, stride=20, asan_stride=4)
@@ -1273,10 +1277,10 @@ PROPS = {
     "C14": {"families": ["life", "free"], "title": "life cycle; misuse errors, never UB"},
     "C02": {"families": ["stream", "free"], "title": "stream fidelity"},
     # (thorough: the destroy scripts also run through the C++ destructor in C16's cxx family)
-    "C15": {"families": ["destroy", "free"], "title": "destroy applies the stop policy"},
+    "C15": {"families": ["destroy", "restart", "free"], "title": "destroy applies the stop policy"},
     "C16": {"families": ["drain", "run", "cxx", "free"], "title": "drain and run"},
     "C17": {"families": ["stream", "free"], "title": "nonblocking never blocks; blocking waits only for the child"},
-    "C08": {"families": ["poll", "free"], "title": "deadlines and timeouts bound every wait and poll"},
+    "C08": {"families": ["poll", "restart", "free"], "title": "deadlines and timeouts bound every wait and poll"},
     "C09": {"families": ["poll", "stream", "free"], "title": "poll reports exactly the true events"},
 }
 
